@@ -243,7 +243,7 @@ func runOps(c *gal.Ctx, tmp string) {
 					switch {
 					case p2:
 						c.OracleFail(idx, w+": parsing what was written panics: "+m2, site, d)
-					case uerr != nil && !isJSON && strings.Contains(uerr.Error(), "is not convertible to TXTPublicKey") && smallKey(before):
+					case uerr != nil && !isJSON && knownSmallKeyRoundTrip(before):
 						c.OracleFailKnown(idx, "C16-yaml-small-public-key", w+": the document written for a reached state holding a TXT.PUBLIC.KEY whose first 24 bytes are zero does not parse back: "+uerr.Error(), "pkg/registers/registers.go:MarshalYAML / marshal_value.go:valueUnpack", d)
 					case uerr != nil:
 						c.OracleFail(idx, fmt.Sprintf("%s: the document written for a reached state does not parse back: %v; document %q", w, uerr, b), site, d)
@@ -381,7 +381,7 @@ func yamlRoundTripCase(c *gal.Ctx, kind string, regs registers.Registers, bounda
 	})
 	idx := c.Add(kind, fmt.Sprintf("CYAML %s %s", regsLit(regs), obsRegs(panicked, err, out)), d, true)
 	switch {
-	case !panicked && err != nil && strings.Contains(err.Error(), "is not convertible to TXTPublicKey") && smallKey(regs):
+	case !panicked && err != nil && knownSmallKeyRoundTrip(regs):
 		c.OracleFailKnown(idx, "C16-yaml-small-public-key", "YAML round trip of a TXT.PUBLIC.KEY whose first 24 bytes are zero fails ("+boundary+"): "+err.Error(), "pkg/registers/registers.go:MarshalYAML / marshal_value.go:valueUnpack", d)
 	case panicked || err != nil:
 		c.OracleFail(idx, fmt.Sprintf("YAML round trip fails (%s): %v %s", boundary, err, msg), "pkg/registers/registers.go", d)
